@@ -1537,6 +1537,11 @@ package trzsz
 //@   ghostvar toMD5 int = 0
 //@   after send:fileDataChan set toData = toData + len(p0)
 //@   after send:md5SourceChan set toMD5 = toMD5 + len(p0)
+//@   ghostvar cancelled bool = false
+//@   after recv:Done() set cancelled = true
+//@   # unless the pipeline was cancelled or the decoder failed, the stage ends with both consumers
+//@   # having been given the same bytes
+//@   ensures [C02] !cancelled && result_of("readCloser.Read", 0, 1) == pkgvar("io.EOF") ==> toData == toMD5
 //@   loop 1
 //@     invariant [C02] toData == toMD5
 //@   before send:fileDataChan assert [C02] same(p0, buffer[:n]) && n > 0 && toData == toMD5
